@@ -334,6 +334,7 @@ def struct_outstruct_symmetry(ck, rule, facts, backends):
 
 
 def run(ck, facts):
+    exprval.UNITS[:] = [facts.tool]
     tool = facts.tool
     adts = facts.all_adts()
     host = T.prims_layout(tool)
@@ -455,8 +456,50 @@ def run(ck, facts):
 
     # ---------------- R3 struct_field_info formulas
     s = tool.fn("js::layout::struct_field_info")
+    # the accumulators are recognised by what they are used for, then spelled the way the rules below call them:
+    #   next_offset = what is stored as a field's `offset`;  max_align = the alignment the final Layout is built with;  size / align = the field layout's
+    #   .size() / .align();  padding = what is added to next_offset before the field is recorded;  prev_align = the other local refreshed from `align`
+    import copy as _copy
+    s = dict(s, hir=_copy.deepcopy(s["hir"]))
     body = C.fn_body(s)
-    loop = next((n for n in C.walk(body) if n.get("k") == "for" and C.strip(n["iter"]).get("n") == "types"), None)
+    role = {}
+    push_ = next((x for x in C.walk(body) if x.get("k") == "mcall" and x.get("m") == "push" and C.strip(x["a"][0]).get("k") == "struct" and
+                  any(fl["n"] == "offset" for fl in C.strip(x["a"][0]).get("fields", []))), None)
+    loop = next((n for n in C.walk(body) if n.get("k") == "for" and push_ is not None and any(x is push_ for x in C.walk(n["body"]))), None)
+    if push_ is not None and loop is not None:
+        off_e = C.strip(next(fl["e"] for fl in C.strip(push_["a"][0])["fields"] if fl["n"] == "offset"))
+        if off_e.get("k") == "local":
+            role[off_e["id"]] = "next_offset"
+        if C.strip(push_["recv"]).get("k") == "local":
+            role[C.strip(push_["recv"])["id"]] = "fields"
+        if C.strip(loop["iter"]).get("k") == "local":
+            role[C.strip(loop["iter"])["id"]] = "types"
+        fin_ = [x for x in C.walk(body) if x.get("k") == "call" and (C.callee(x) or "").endswith("Layout::from_size_align") and not any(x is y for y in C.walk(loop))]
+        for x in fin_:
+            a1 = C.strip(x["a"][1]) if len(x.get("a") or []) == 2 else {}
+            if a1.get("k") == "local":
+                role.setdefault(a1["id"], "max_align")
+        items_ = loop["body"].get("s", []) + ([loop["body"]["e"]] if loop["body"].get("e") else [])
+        for x in items_:
+            if x.get("k") == "letst" and isinstance(x.get("pat"), dict) and x["pat"].get("k") == "bind" and x.get("init") is not None:
+                i0 = C.strip(x["init"])
+                if i0.get("k") == "mcall" and i0.get("m") in ("size", "align") and not i0.get("a"):
+                    role.setdefault(x["pat"]["id"], i0["m"])
+        inv_role = {v: k for k, v in role.items()}
+        for x in C.walk(body):
+            if x.get("k") == "assignop" and (x.get("op") or "").startswith("Add") and C.strip(x["l"]).get("id") == inv_role.get("next_offset") and C.strip(x["r"]).get("k") == "local":
+                r_id = C.strip(x["r"])["id"]
+                if r_id not in role:
+                    role[r_id] = "padding"      # inside the loop and after it: both are called `padding` by the rules
+            if x.get("k") == "assign" and C.strip(x["r"]).get("k") == "local" and C.strip(x["r"]).get("id") == inv_role.get("align") and C.strip(x["l"]).get("k") == "local" \
+                    and C.strip(x["l"])["id"] not in role:
+                role[C.strip(x["l"])["id"]] = "prev_align"
+        for x in C.walk(s["hir"]):
+            if x.get("k") in ("local", "bind") and x.get("id") in role:
+                x["n"] = role[x["id"]]
+        for x in C.walk(body):     # patterns are not visited by walk(): rename the `let` bindings as well
+            if x.get("k") == "letst" and isinstance(x.get("pat"), dict) and x["pat"].get("k") == "bind" and x["pat"].get("id") in role:
+                x["pat"]["n"] = role[x["pat"]["id"]]
     if not loop:
         ck.bad("R3", "struct_field_info/loop", "loop over field types not found", C.loc(s))
     else:
@@ -505,30 +548,40 @@ def run(ck, facts):
         oks = bool(sz and al) and C.strip(sz["init"]).get("m") == "size" and C.strip(al["init"]).get("m") == "align"
         ck.expect(oks, "R3", "struct_field_info/size-align-source", "", "size/align are not read from the field type's Layout", C.loc(s))
     # end padding + final layout
-    endpad = None
-    for n in C.walk(body):
-        if n.get("k") == "if" and any(x.get("k") == "letst" and x["pat"].get("n") == "padding" for x in C.walk(n["t"])) and n is not loop:
-            inside_loop = loop is not None and any(n is y for y in C.walk(loop))
-            if not inside_loop:
-                endpad = n
+    # the trailing padding: the one `next_offset += P` after the loop; P's defining expression and the conditions on the way to the addition, evaluated on the grid
     okend = False
-    detail = ""
-    if endpad:
-        pad2 = next(x for x in C.walk(endpad["t"]) if x.get("k") == "letst" and x["pat"].get("n") == "padding")
+    detail = "no `next_offset += padding` after the loop"
+    tail_adds = [(n_, st_) for n_, st_ in C.with_conditions(body) if n_.get("k") == "assignop" and (n_.get("op") or "").startswith("Add") and C.strip(n_["l"]).get("n") == "next_offset"
+                 and C.strip(n_["r"]).get("k") == "local" and not (loop is not None and any(n_ is y for y in C.walk(loop)))]
+    if len(tail_adds) == 1:
+        add_, st_ = tail_adds[0]
+        pid = C.strip(add_["r"])["id"]
+        pdef = next((x for x in C.walk(body) if x.get("k") == "letst" and isinstance(x.get("pat"), dict) and x["pat"].get("id") == pid and x.get("init") is not None), None)
+        conds = [(c_, br_) for k_, c_, br_ in st_ if k_ == "if" and any(y.get("k") == "local" and y.get("n") in ("next_offset", "max_align", "padding") for y in C.walk(c_))]
         bad2 = []
-        for a in (1, 2, 4, 8, 16):
-            for off in range(1, 65):
-                try:
-                    c = exprval.ev(endpad["c"], {"max_align": a, "next_offset": off})
-                    got = exprval.ev(pad2["init"], {"max_align": a, "next_offset": off}) if c else 0
-                except exprval.Unknown as e:
-                    bad2.append(str(e))
-                    break
-                if got != (-off) % a:
-                    bad2.append((off, a, got))
-        adds = [x for x in C.walk(endpad["t"]) if x.get("k") == "assignop" and C.strip(x["l"]).get("n") == "next_offset" and C.strip(x["r"]).get("n") == "padding"]
-        okend = not bad2 and len(adds) == 1
+        if pdef is None:
+            bad2.append("padding is not a local computed in the function")
+        else:
+            for a in (1, 2, 4, 8, 16):
+                for off in range(1, 65):
+                    env_ = {"max_align": a, "next_offset": off}
+                    try:
+                        # a condition may mention the padding itself (`if padding != 0`): evaluate it first when it is defined outside the branch
+                        try:
+                            env_["padding"] = exprval.ev(pdef["init"], env_)
+                        except exprval.Unknown:
+                            pass
+                        taken = all(bool(exprval.ev(c_, env_)) == (br_ == "t") for c_, br_ in conds)
+                        got = exprval.ev(pdef["init"], env_) if taken else 0
+                    except exprval.Unknown as e:
+                        bad2.append(str(e))
+                        break
+                    if got != (-off) % a:
+                        bad2.append((off, a, got))
+        okend = not bad2
         detail = str(bad2[:3])
+    elif len(tail_adds) > 1:
+        detail = "%d additions to next_offset after the loop" % len(tail_adds)
     ck.expect(okend, "R3", "struct_field_info/end-padding", "size rounded up to max_align on the grid", "trailing padding does not round the struct size up to its alignment: %s" % detail, C.loc(s))
     fin = [x for x in C.walk(body) if x.get("k") == "call" and (C.callee(x) or "").endswith("Layout::from_size_align")]
     okf = len(fin) == 1 and [C.strip(a).get("n") for a in fin[0]["a"]] == ["next_offset", "max_align"]
